@@ -66,6 +66,9 @@ def run_layout(case):
                 body = (case["unrelated"] or {}).get(name) or UNRELATED[name]
             else:
                 body = SECTION[name] % VERSIONS[name]
+                if name in (case.get("big_preamble") or []):
+                    # a long file: the bumpver section comes after more than 4 KiB of other content (init appends)
+                    body = UNRELATED[name] + "".join("# line %04d of a long preamble ............................\n" % i for i in range(120)) + "\n" + body
                 if name == "setup.cfg" and case.get("legacy_cfg_section"):
                     body = body.replace("[bumpver]", "[pycalver]").replace("[bumpver:file_patterns]", "[pycalver:file_patterns]")
                 sections.append(name)
@@ -198,7 +201,8 @@ def build(d):
         for name in CONFIGS:
             if configs[name] == "section":
                 configs[name] = "absent"
-    return {"configs": configs, "plain": {n: d.bool() for n in PLAIN}, "unrelated": unrelated, "legacy_cfg_section": d.bool()}
+    return {"configs": configs, "plain": {n: d.bool() for n in PLAIN}, "unrelated": unrelated, "legacy_cfg_section": d.bool(),
+            "big_preamble": [n for n in CONFIGS if configs[n] == "section" and d.bool()]}
 
 
 PARTS = [
